@@ -1,4 +1,4 @@
-\* probing phase of a new transfer, every -B class, one pause; real constants, channel capacities 2
+\* the real channel capacities 5 / 5
 SPECIFICATION Spec
 CONSTANTS
   Floor = 1024
@@ -6,17 +6,17 @@ CONSTANTS
   InitSize = 10240
   HardCap = 1073741824
   BoundFloor = 1048576
-  SendCap = 2
-  AckCap = 2
-  MaxBufs = {1024, 4096, 10240, 40960, 1073741824}
+  SendCap = 5
+  AckCap = 5
+  MaxBufs = {40960}
   Modes = {"bin"}
   Protos = {4}
-  Secs = {2, 20}
-  MaxChunks = 2
+  Secs = {2}
+  MaxChunks = 3
   P1MaxChunks = 1
   MaxFiles = 1
   MaxPauses = 1
-  StartSizes = {}
+  StartSizes = {10240}
   Variant = "coded"
 INVARIANTS TypeOK SizeInRange ChunksInRange NeverRejectedByReceiver NothingQueuedIsRejected ProbeEndsOnce
   TokenPaired EncoderNotStuck OneChunkWhileProbing DoubleOnlyWhenAllowed ShrinkOnlyWhenSlow
